@@ -591,6 +591,7 @@ func runRows(e *core.Env, prop string) error {
 			if len(ec.selLeaf) == 0 {
 				// no selected input: this is a transaction-indexing declaration (one row per tx, logs ignored)
 				e.Add(core.Case{Op: fmt.Sprintf("ptx %s %s %s %s", aggTok, strings.Join(bsp, ";"), refsTok, strings.Join(ctxs, ";")), Impl: impl,
+					Oracle:     fmt.Sprintf("ptxspec %s %s %s %s %s", aggTok, strings.Join(bsp, ";"), refsTok, strings.Join(ctxs, ";"), quoteImpl(impl)),
 					Nontrivial: nActive > 0, Tags: []string{"ptx", "impl:" + strings.SplitN(impl, " ", 2)[0]}, Key: op,
 					Detail: map[string]any{"block": cig.Block, "agg": cig.FilterAGG}})
 				break
